@@ -104,10 +104,18 @@ def check_property_file(pid):
     src = strip_comments(open(path, encoding='utf8').read())
     theorems = re.findall(r'^\s*(?:Theorem|Corollary)\s+([A-Za-z0-9_\']+)', src, re.M)
     printed = re.findall(r'^\s*Print Assumptions\s+([A-Za-z0-9_\'.]+)\s*\.', src, re.M)
-    r = subprocess.run(['timeout', '600', 'coqc', '-Q', 'theories', 'YP',
-                        '-w', '-notation-overridden,-deprecated-hint-without-locality,-deprecated-instance-without-locality',
-                        os.path.join('theories', 'Properties', pid + '.v')],
-                       cwd=COQ, capture_output=True, text=True)
+    # compiled from a private copy: two checks of one property running at the same time (quick and thorough, or the
+    # seeded-change driver) must not rewrite Properties/<pid>.vo under each other; that file is written by make only
+    priv = os.path.join(VERIF, '.work', 'prop-%d' % os.getpid())
+    os.makedirs(priv, exist_ok=True)
+    cp = os.path.join(priv, pid + '_pa.v')
+    shutil.copyfile(path, cp)
+    try:
+        r = subprocess.run(['timeout', '600', 'coqc', '-Q', os.path.join(COQ, 'theories'), 'YP',
+                            '-w', '-notation-overridden,-deprecated-hint-without-locality,-deprecated-instance-without-locality',
+                            cp], cwd=priv, capture_output=True, text=True)
+    finally:
+        shutil.rmtree(priv, ignore_errors=True)
     if r.returncode != 0:
         raise CoqError('Properties/%s.v does not compile:\n%s' % (pid, (r.stdout + r.stderr)[-3000:]))
     out = r.stdout
